@@ -1,6 +1,7 @@
 ----------------------------- MODULE VattiTrace -----------------------------
 (* Layer 2/3 (implementation-shaped, C01 C13): the sweep's discrete state at every scanbeam.   *)
-(* Event VCase: closed subject/clip paths (TLC-certified general position, no horizontal edge).   *)
+(* Event VCase: closed subject/clip paths: TLC-certified general position without horizontal edges  *)
+(*   (V1-V5), or rectilinear - horizontal edges, coincident and touching edges included (V1-V3, V5).  *)
 (* Event Ael  : the active edge list recorded by hook H1 right after the local minima at          *)
 (*   scanline y were inserted: for each edge, left to right,                                       *)
 (*   <<y, bot.x, bot.y, top.x, top.y, curr_x, wind_dx, wind_cnt, wind_cnt2, ptype, open, hot, ct, fr>>  *)
@@ -30,7 +31,8 @@ EdgeRecs(Ps, pt) == Flat([k \in 1..Len(Ps) |-> [i \in 1..Len(Ps[k]) |->
 NoHorz(Ps) == \A k \in 1..Len(Ps) : \A i \in 1..Len(Ps[k]) : Ps[k][i][2] # Ps[k][(i % Len(Ps[k])) + 1][2]
 
 TCase == /\ Ev.e = "VCase"
-         /\ cs' = [ok |-> NoHorz(Ev.subj \o Ev.clip) /\ GP(Ev.subj \o Ev.clip, 3),
+         /\ cs' = [gp |-> NoHorz(Ev.subj \o Ev.clip) /\ GP(Ev.subj \o Ev.clip, 3),
+                   ok |-> (NoHorz(Ev.subj \o Ev.clip) /\ GP(Ev.subj \o Ev.clip, 3)) \/ Rectilinear(Ev.subj \o Ev.clip),
                    edges |-> EdgeRecs(Ev.subj, 0) \o EdgeRecs(Ev.clip, 1)]
 
 SumDx(A, j, pt) == LET S == {i \in 1..(j - 1) : A[i][10] = pt /\ A[i][11] = 0}
@@ -40,7 +42,7 @@ TAel ==
   /\ UNCHANGED cs
   /\ cs.ok =>
       LET A == Ev.a  n == Len(A)  y == Ev.y  fr == Ev.fr  ct == Ev.ct
-          want == {i \in 1..Len(cs.edges) : cs.edges[i][2][2] < y /\ y <= cs.edges[i][1][2]}
+          want == {i \in 1..Len(cs.edges) : cs.edges[i][1][2] # cs.edges[i][2][2] /\ cs.edges[i][2][2] < y /\ y <= cs.edges[i][1][2]}   \* horizontal edges are never in the AEL at this point
           asSet == {<<<<A[j][2], A[j][3]>>, <<A[j][4], A[j][5]>>, A[j][7], A[j][10]>> : j \in 1..n}
           bad3 == {j \in 1..n : LET wl == SumDx(A, j, A[j][10])  w2 == SumDx(A, j, 1 - A[j][10])
                                  IN (fr # 0 /\ A[j][8] # CT!StoredCnt(fr, wl, A[j][7])) \/ A[j][9] # CT!StoredCnt2(fr, w2)}   \* under EvenOdd wind_cnt carries no information (the table ignores it)
@@ -48,10 +50,11 @@ TAel ==
       IN /\ Chk(asSet = {cs.edges[i] : i \in want} /\ n = Cardinality(want), "ENGINE", "V1_ael_is_not_the_set_of_edges_spanning_the_scanbeam", y)
          /\ Chk(\A j \in 1..(n - 1) : A[j][6] <= A[j + 1][6], "ENGINE", "V2_ael_not_sorted_by_x", y)
          /\ Chk(bad3 = {}, "ENGINE", "V3_wind_counts_differ_from_region_windings", IF bad3 = {} THEN 0 ELSE CHOOSE j \in bad3 : TRUE)
-         /\ Chk(bad4 = {}, "ENGINE", "V4_hot_flag_differs_from_contribution_table", IF bad4 = {} THEN 0 ELSE CHOOSE j \in bad4 : TRUE)
+         \* V4 only in general position: with coincident or touching edges (rectilinear walks) which of two coincident edges is hot is the engine's choice
+         /\ (cs.gp => Chk(bad4 = {}, "ENGINE", "V4_hot_flag_differs_from_contribution_table", IF bad4 = {} THEN 0 ELSE CHOOSE j \in bad4 : TRUE))
          /\ Chk(SumDx(A, n + 1, 0) = 0 /\ SumDx(A, n + 1, 1) = 0, "ENGINE", "V5_windings_do_not_close", y)
 TCrash == Ev.e = "Crash" /\ UNCHANGED cs /\ Report("ANY", "call_did_not_return", Ev.sig)
-Init == l = 1 /\ cs = [ok |-> FALSE, edges |-> <<>>]
+Init == l = 1 /\ cs = [gp |-> FALSE, ok |-> FALSE, edges |-> <<>>]
 Next == l <= Len(Tr) /\ l' = l + 1 /\ (TCase \/ TAel \/ TCrash)
 Spec == Init /\ [][Next]_<<l, cs>>
 =============================================================================
